@@ -48,8 +48,10 @@ def int_axis_faces(rng, kind, n):
         n = min(n, 3)
         f = np.sort(rng.choice(np.arange(0, 4), n + 1, replace=False))
     else:
-        steps = rng.integers(1, 5, n)
-        x0 = int(rng.integers(0, 4)) if kind == 'rad' else int(rng.integers(-3, 4))
+        # positions written in a small unit (millimetres, micrometres): whole numbers of any size the dtype can hold
+        mag = int(rng.choice([1, 1, 10, 300, 2000])) if dt != np.int16 else int(rng.choice([1, 1, 10, 300]))
+        steps = rng.integers(1, 5, n) * mag
+        x0 = (int(rng.integers(0, 4)) if kind == 'rad' else int(rng.integers(-3, 4))) * mag
         f = x0 + np.concatenate([[0], np.cumsum(steps)])
     return np.asarray(f, dtype=dt)
 
